@@ -20,7 +20,7 @@ func checkC18(c *Ctx) {
 	c.Assume = append(c.Assume, "objects looked up by distinct map keys are distinct", "external (non-repository) calls without a Write/Print-like name have no order-dependent effect")
 
 	c.Decides("CMP: every comparator given to sort.Slice/SliceStable compares the same plain key (fields, trivial getters) of its two elements; a comparator through a lossy function (ToLower, Atoi, len ...) or with a key chosen by a condition lets elements tie or is not transitive, and the result then depends on the order the slice had (traversal or map order)")
-	nc, _ := c.cmpTotal("CMP", c.AllFuncs(), "same inputs and same seed give byte-identical output")
+	nc, _ := c.cmpTotal("CMP", append(c.AllFuncs(), c.PkgLevelClosures()...), "same inputs and same seed give byte-identical output")
 	c.Extra["sort_comparators"] = nc
 	c.Floor("CMP", 5)
 	// MAPRANGE
